@@ -89,6 +89,8 @@ def tally(dist, c, r):
 
 
 def shrink_candidates(c):
+    if isinstance(c, dict) and c.get("via"):
+        return []                          # a case of the maximal-length phase (C17's case format): reported as found
     out = []
     d = c["docs"]
     for cut in (d[: len(d) // 2], d[len(d) // 2:], d[1:], d[:-1]):
@@ -146,4 +148,38 @@ def extra_phase(ctx):
         if not ok:
             bad += 1
             out.violations.append((c, r, None, None, "document ids at the key capacity: wrong row or no rejection"))
-    return {"row_limit_cases": len(cases), "row_limit_failures": bad}
+    # a document of EXACTLY the maximal length (262143 tokens) under the index options that touch it: truncate on / off,
+    # one worker / several; three-way through C17's machinery (its linear-time model variant), term frequencies only
+    from harness.props import c17
+    from harness import run as R
+    L = c17.LIMIT
+    lim_cases = []
+    for trunc, w in ((True, 1), (True, 4), (False, 2)):
+        big = {"fill": [1, 2], "len": L, "marks": {str(L - 1): 7, str(L - 2): 8, "5": 7}}
+        docs = [[3, 7], big] if w != 4 else [big, [], [7]]
+        lim_cases.append({"docs": docs, "truncate": trunc, "opts": {"workers": w, "batch_size": rng.choice([1, 100000])},
+                          "queries": [["tf", 7], ["tf", 8], ["tf", 1], ["tf", 9]]})
+    o2 = R.Outcome()
+    R.evaluate(c17, lim_cases, ctx["scratch"], o2, [])
+    for v in o2.violations:
+        out.violations.append((dict(v[0], via="C17 machinery"), v[1], v[2], v[3], "document of maximal length: " + v[4]))
+    out.corr_breaks += [(dict(c, via="C17 machinery"), i, m) for c, i, m in o2.corr_breaks]
+    return {"row_limit_cases": len(cases), "row_limit_failures": bad, "max_length_document_cases": len(lim_cases),
+            "max_length_document_failures": len(o2.violations)}
+
+
+def replay(rp):
+    """replay files of the maximal-length phase carry C17's case format: re-run them through that machinery"""
+    case = rp.get("case")
+    if not (isinstance(case, dict) and case.get("via")):
+        return None
+    from harness import common as C
+    from harness import run as R
+    from harness.props import c17
+    o = R.Outcome()
+    R.evaluate(c17, [{k: v for k, v in case.items() if k != "via"}], C.scratch_build(), o, [])
+    if o.violations or o.corr_breaks:
+        print(f"VIOLATION property=C01 replay=replays/{rp.get('_file', '')}" + ("" if o.violations else " no-failing-input-found"))
+        return 1
+    print("replay: property holds on this input now")
+    return 0
